@@ -26,7 +26,9 @@ def population(tier, seed):
     pop = []
     for i in range(n_gen):
         r = rng.random()
-        if r < 0.55:
+        if r < 0.06:
+            g = gen.lr1_not_lalr(rng, i)
+        elif r < 0.55:
             g = gen.random_grammar(rng, i, max_nt=3, max_t=3, max_prods=7, max_rhs=3,
                                    starts=(2 if rng.random() < 0.2 else 1))
         elif r < 0.85:
@@ -44,8 +46,8 @@ def population(tier, seed):
 def bound_for(cg, tier):
     t = len(cg["ts"])
     if tier == "quick":
-        return {1: 6, 2: 5, 3: 4}.get(t, 3)
-    return {1: 8, 2: 6, 3: 5}.get(t, 4)
+        return {1: 6, 2: 5, 3: 4, 4: 3}.get(t, 3)
+    return {1: 8, 2: 6, 3: 5, 4: 4}.get(t, 4)
 
 
 def variants_for(idx, tier):
